@@ -347,7 +347,10 @@ class World:
 def bounds(tier):
     if tier == 'quick':
         return ['g1', 'g2'], ['x1']
-    return ['g1', 'g2', 'g3'], ['x1', 'x2']
+    return ['g1', 'g2'], ['x1', 'x2']       # thorough: two nested contexts; a third generator runs in an extra world
+
+
+EXTRA_WORLDS = {'quick': [], 'thorough': [(['g1', 'g2', 'g3'], [])]}
 
 
 def make_factory(tier, variant='rw'):
@@ -382,6 +385,18 @@ def run(tier):
         sig = {k: v for k, v in sig.items() if k != 'diverged'}
         rep.violation(dict(sig, variant='read-only handle'), 'read-only handle, context opened r+: ' + what,
                       dict(replay, bounds={'gens': ro_gens, 'ctxs': ro_ctxs}, variant='ro'))
+    extra_cov = []
+    for (xg, xc) in EXTRA_WORLDS[tier]:
+        template()
+        xf = (lambda g, c: (lambda wd: World(wd, g, c)))(xg, xc)
+        xr = sched.explore(xf, max_states=400000)
+        for (sig, what, replay) in xr.violations:
+            sig = {k: v for k, v in sig.items() if k != 'diverged'}
+            rep.violation(sig, what, dict(replay, bounds={'gens': xg, 'ctxs': xc}, variant='extra'))
+        extra_cov.append({'gens': xg, 'ctxs': xc, 'states': xr.states, 'executions': xr.executions, 'closed': xr.closed})
+        ro.states += xr.states
+        ro.executions += xr.executions
+        ro.closed = ro.closed and xr.closed
     need = REQUIRED_FLAGS + [f'first_finished:{x}' for x in gens + ctxs]
     missing = [f for f in need if not res.flags.get(f)]
     if 'write' not in ro.outcomes and not ro.violations:
@@ -402,6 +417,7 @@ def run(tier):
     cov = {
         'states': res.states + ro.states, 'transitions': res.executions + ro.executions,
         'traces_validated_against_impl': res.executions + ro.executions,
+        'extra_worlds': extra_cov,
         'readonly_handle_world': {'states': ro.states, 'executions': ro.executions, 'closed': ro.closed,
                                   'outcomes_per_action': ro.outcomes},
         'samples': [{'schedule': s} for s in res.samples],
@@ -425,8 +441,12 @@ def run(tier):
 
 
 def replay(rec):
-    tier = 'thorough' if len(rec.get('bounds', {}).get('gens', [])) > 2 else 'quick'
-    factory, gens, ctxs = make_factory(tier, rec.get('variant', 'rw'))
+    b = rec.get('bounds', {})
+    tier = 'thorough' if len(b.get('ctxs', [])) > 1 else 'quick'
+    factory, gens, ctxs = make_factory(tier, rec.get('variant', 'rw') if rec.get('variant') != 'extra' else 'rw')
+    if rec.get('variant') == 'extra':
+        template()
+        factory = (lambda g, c: (lambda wd: World(wd, g, c)))(b['gens'], b['ctxs'])
     if rec.get('variant') == 'ro' and len(rec.get('bounds', {}).get('gens', [])) == 1:
         factory, gens, ctxs = make_factory('quick', 'ro')
     h = [tuple(x) for x in rec['schedule']]
